@@ -1,13 +1,22 @@
-import TinsModel.Wire.Icmp.Family
-import TinsModel.Basic.CursorLemmas
-import TinsModel.Basic.CodecLemmas
-import TinsModel.Wire.ChainLemmas
-import TinsModel.Wire.IfaceLemmas
+import TinsModel.Wire.Icmp.ThFamily
+import TinsModel.Wire.Icmp.ThIcmp6Reparse
 /-
-  Per-layer theorems of the Icmp family for the four wire properties (C01 parse_safe, C02 writesOnly,
-  C03 reparse, C04 codec inverses).  See TinsModel/Wire/Transport/Theorems.lean for the worked example (UDP).
--/
-namespace Tins.Wire.Icmp
-open Tins Tins.Wire
+  Per-layer and family-level theorems of the Icmp family for the four wire properties.  Index:
 
-end Tins.Wire.Icmp
+  Lemmas.lean          outcome predicates of parsing steps (`ParseSafe`, `Good`, `GoodV`) and their sequencing rules; closed
+                       forms of the stream operations; "only these bytes change" (`window`) facts
+  ThExt.lean           C01: ICMPExtension / ICMPExtensionsStructure parsing, validate_extensions, try_parse_icmp_extensions
+  ThExtWrite.lean      C02: ICMPExtensionsStructure::size() is exact, serialize touches only its own bytes, RFC 4884 padding
+  ThChecksum.lean      the checksum serialize stores is the one validate_extensions accepts (DESIGN §7 #16, fixed)
+  ThExtReparse.lean    C03: parse ∘ serialize of the structure; try_parse_icmp_extensions finds it (`tryParseExt_found`) or
+                       nothing (`tryParseExt_none` under `ghostFree`)
+  ThIcmp.lean          C01 + invariant: ICMP        ThIcmpWrite.lean   C02: ICMP        ThIcmpApi.lean    C04: API keeps the invariant
+  ThIcmp6.lean         C01 + invariant: ICMPv6      ThIcmp6Write.lean  C02: ICMPv6      ThIcmp6Api.lean   C04: API keeps the invariant
+  ThOptsReparse.lean   C03/C04: ICMPv6 option loop inverts the writer on expressible options; KF-C04-Icmp-2/3
+                       (`icmp6_opts_reparse_full`, `icmp6_unaligned_option_fails`, `icmp6_opts_reparse_partial`)
+  ThCodec.lean         C04: setters vs getters (union members, bit-fields), typed option codecs, built options are expressible
+  ThIcmpReparse.lean   C03: ICMP (`icmp_reparse_plain`, `icmp_reparse_quote`, `icmp_reparse_ext`); KF-C03-Icmp-3/4
+                       (`icmp_reparse_quote_full`, `icmp_reparse_ghost_fails`, `icmp_reparse_quote_partial`, `_aligned`)
+  ThIcmp6Reparse.lean  C03: ICMPv6 (`icmp6_reparse_plain` incl. options / MLD records / query sources, `icmp6_reparse_ext`)
+  ThFamily.lean        icmp_family_parse_safe, _parse_consumes, _parse_inv, _writesOnlyAt, _mk_inv, _apply_inv, _history_inv
+-/
